@@ -22,6 +22,11 @@ type encCase struct {
 	Junk int    `json:"junk"`
 	Adds int    `json:"adds"`
 	Inst int    `json:"instance"`
+	// offset-start states: Base opaque leaves, then AddN added leaves of which Alive are live
+	// (Hist is empty); Inst 0 = Stump, 1 = partial MapPollard started from bare roots
+	Base  uint64 `json:"base,omitempty"`
+	AddN  int    `json:"addN,omitempty"`
+	Alive string `json:"alive,omitempty"`
 }
 
 var encInsts = []InstCfg{
@@ -87,6 +92,9 @@ func buildEncoding(s ref.State, set []int, enc string, junk int) (hs []Hash, pro
 // evalEncoding applies one encoding to one instance after replaying hist. It returns
 // (accepted by Verify, violations).
 func evalEncoding(ec encCase) (bool, []Violation) {
+	if ec.Base > 0 {
+		return evalEncodingBase(ec)
+	}
 	cfg := encInsts[ec.Inst]
 	x := NewExec("C05", func() Case { return mkCase("enc", ec) })
 	replayCfg := cfg
@@ -171,6 +179,70 @@ func evalEncoding(ec encCase) (bool, []Violation) {
 	return true, x.Viol
 }
 
+// evalEncodingBase: the offset-start variant of evalEncoding.
+func evalEncodingBase(ec encCase) (bool, []Violation) {
+	x := NewExec("C05", func() Case { return mkCase("enc", ec) })
+	s := ref.State{Base: ec.Base, Alive: make([]bool, ec.AddN)}
+	var dead, all []int
+	for i := 0; i < ec.AddN; i++ {
+		s.Alive[i] = ec.Alive[i] == '1'
+		all = append(all, i)
+		if !s.Alive[i] {
+			dead = append(dead, i)
+		}
+	}
+	L := ref.APILayout(s)
+	hs, proof, ok := buildEncoding(s, ec.Set, ec.Enc, ec.Junk)
+	if !ok {
+		return false, nil
+	}
+	refStump := u.Stump{Roots: append([]Hash(nil), L.Roots...), NumLeaves: s.Total()}
+	if _, err := x.Verify(refStump, hs, proof); err != nil {
+		return false, nil
+	}
+	after := s.Apply(ec.Set, ec.Adds)
+	LA := ref.APILayout(after)
+	encDesc := fmt.Sprintf("%s junk=%d", ec.Enc, ec.Junk)
+	var n uint64
+	var roots []Hash
+	class := "Stump"
+	if ec.Inst == 0 {
+		st := u.Stump{Roots: append([]Hash(nil), L.Roots...), NumLeaves: s.Total()}
+		if _, err := x.StumpUpdate(&st, hs, hashesFor(s.N(), ec.Adds), proof); err != nil {
+			x.Report("C05", "an accepted deletion proof is rejected by Stump.Update", fmt.Sprintf("base %d delete %v (%s): %v", ec.Base, ec.Set, encDesc, err))
+			return true, x.Viol
+		}
+		n, roots = st.NumLeaves, st.Roots
+	} else {
+		class = "MapPollard(partial)"
+		fam := &PartialFamily{Nmax: 64, TR: 63, Base: ec.Base, Prop: "substrate"}
+		var hist []Op
+		if ec.AddN > 0 {
+			hist = append(hist, Op{Kind: "block", Adds: ec.AddN, Rem: all})
+		}
+		if len(dead) > 0 {
+			hist = append(hist, Op{Kind: "block", Dels: dead, Rem: []int{}})
+		}
+		m, _, ok := fam.run(x, hist)
+		if !ok {
+			return false, nil
+		}
+		if err := x.Modify("MapPollard(partial from roots)", m, leavesFor(s.N(), ec.Adds, func(int) bool { return true }), hs, proof); err != nil {
+			x.Report("C05", "an accepted deletion proof is rejected by Modify on "+class, fmt.Sprintf("base %d delete %v (%s) add %d: %v", ec.Base, ec.Set, encDesc, ec.Adds, err))
+			return true, x.Viol
+		}
+		n, roots = m.GetNumLeaves(), m.GetRoots()
+	}
+	if n != after.Total() {
+		x.Report("C05", "leaf count after applying an accepted block differs from the reference on "+class, fmt.Sprintf("base %d delete %v (%s) add %d: want %d got %d", ec.Base, ec.Set, encDesc, ec.Adds, after.Total(), n))
+	}
+	if !eqH(roots, LA.Roots) {
+		x.Report("C05", "roots after applying an accepted block differ from the reference on "+class, fmt.Sprintf("base %d delete %v (%s) add %d: want %d roots %s got %d roots %s", ec.Base, ec.Set, encDesc, ec.Adds, len(LA.Roots), shortHs(LA.Roots), len(roots), shortHs(roots)))
+	}
+	x.CheckHeld()
+	return true, x.Viol
+}
+
 func init() {
 	Engines["enc"] = func(prop string, payload json.RawMessage) ([]Violation, error) {
 		var ec encCase
@@ -191,7 +263,7 @@ func init() {
 	Checks["C05"] = func(c *Ctx) {
 		n5 := pick(c, 6, 8)
 		permLimit := pick(c, 4, 4)
-		c.Cov.Rule = "states = all states of the forward BFS with N<=Nmax (de-duplicated on concrete dumps); for every state and every non-empty set S of live leaves, every encoding from the closed family {direct proof in every permutation of S (|S|<=PermLimit, else sorted/reversed/rotated) with 0..2 trailing unused proof hashes, AddProof of every two-part split of S, GetProofSubset of the all-live proof} that Verify accepts is applied with k in {0,1,2} additions to fresh replays of the state's history on Stump, Pollard, full MapPollard (TR 0, 63), partial MapPollard with the leaves cached beforehand (TR 0, 63), partial MapPollard after Verify(remember) of the same encoding (TR 0, 3) and NewMapPollardFromRoots; roots and leaf count must equal the reference for alive - S plus the additions; a second pass takes the states whose history contains one serialize/restore of the forest (so that restored forests that evolved further are covered) with the direct encodings; a third pass takes structured taller states [add N][delete S, add k] (N around 8 and 16, S singles / sibling pairs / aligned subtrees and their near-complements) with every live singleton and adjacent pair; non-trivial = accepted non-canonical encodings applied"
+		c.Cov.Rule = "states = all states of the forward BFS with N<=Nmax (de-duplicated on concrete dumps); for every state and every non-empty set S of live leaves, every encoding from the closed family {direct proof in every permutation of S (|S|<=PermLimit, else sorted/reversed/rotated) with 0..2 trailing unused proof hashes, AddProof of every two-part split of S, GetProofSubset of the all-live proof} that Verify accepts is applied with k in {0,1,2} additions to fresh replays of the state's history on Stump, Pollard, full MapPollard (TR 0, 63), partial MapPollard with the leaves cached beforehand (TR 0, 63), partial MapPollard after Verify(remember) of the same encoding (TR 0, 3) and NewMapPollardFromRoots; roots and leaf count must equal the reference for alive - S plus the additions; a second pass takes the states whose history contains one serialize/restore of the forest (so that restored forests that evolved further are covered) with the direct encodings; a third pass takes structured taller states [add N][delete S, add k] (N around 8 and 16, S singles / sibling pairs / aligned subtrees and their near-complements) with every live singleton and adjacent pair; a fourth pass starts Stump and a partial MapPollard from the bare roots of accumulators with 2^5..2^63-4 leaves plus up to three added leaves; non-trivial = accepted non-canonical encodings applied"
 		c.Cov.Bound["Nmax"] = n5
 		c.Cov.Bound["PermLimit"] = permLimit
 		c.Cov.Bound["instances"] = len(encInsts)
@@ -384,6 +456,51 @@ func init() {
 			})
 			if !ok {
 				c.Cov.NotExhaustive("deadline reached during the structured-state pass")
+			}
+		}
+		// offset-start states: accumulators of 2^5 .. 2^63-4 opaque leaves plus up to three added leaves
+		// (every alive subset); every deletion set of the added live leaves (also none), every
+		// permutation, 0-1 junk hashes, 0-3 additions; Stump and a partial MapPollard from bare roots
+		{
+			type otask struct {
+				base  uint64
+				n     int
+				alive string
+				set   []int
+			}
+			var ots []otask
+			for _, st := range offsetStates(offsetBases(c.Thorough()), 3) {
+				for _, set := range subsets(st.Live(), true) {
+					ots = append(ots, otask{st.Base, st.N(), boolKey(st.Alive), set})
+				}
+			}
+			c.Cov.Bound["offset_start.bases"] = fmt.Sprint(offsetBases(c.Thorough()))
+			c.Cov.AddStates(int64(len(offsetStates(offsetBases(c.Thorough()), 3))))
+			ok := parallelFor(c, len(ots), func(i int) {
+				tk := ots[i]
+				orders := [][]int{tk.set}
+				if len(tk.set) > 1 {
+					orders = perms(tk.set)
+				}
+				for _, order := range orders {
+					for junk := 0; junk <= 1; junk++ {
+						for k := 0; k <= 3; k++ {
+							if tk.base+uint64(tk.n)+uint64(k) > uint64(1)<<63 || (len(order) == 0 && k == 0) {
+								continue
+							}
+							for inst := 0; inst <= 1; inst++ {
+								a, vs := evalEncoding(encCase{Set: order, Enc: "direct", Junk: junk, Adds: k, Inst: inst, Base: tk.base, AddN: tk.n, Alive: tk.alive})
+								if a {
+									atomic.AddInt64(&applied, 1)
+									c.Col.Add(vs...)
+								}
+							}
+						}
+					}
+				}
+			})
+			if !ok {
+				c.Cov.NotExhaustive("deadline reached during the offset-start pass")
 			}
 		}
 		c.Cov.AddTransitions(applied)
